@@ -375,6 +375,18 @@ func (t *cfgTr) cond(e ast.Expr) string {
 				}
 				return "false"
 			}
+		case "utf8.ValidString":
+			if len(x.Args) == 1 {
+				o, ok := t.operand(x.Args[0])
+				if !ok {
+					return "false"
+				}
+				if o.kind != "str" {
+					t.fail("utf8.ValidString: argument `%s` is not a string field", exprString(x.Args[0]))
+					return "false"
+				}
+				return "decide (ValidUTF8 " + o.lean + ")"
+			}
 		case "math.IsInf":
 			if len(x.Args) == 2 {
 				a, ok := t.floatFieldArg(x.Args[0], "math.IsInf")
@@ -390,7 +402,7 @@ func (t *cfgTr) cond(e ast.Expr) string {
 			}
 		}
 	}
-	t.fail("condition `%s` is outside the supported subset (comparisons of fields with constants, ||, &&, !, math.IsNaN, math.IsInf)", exprString(e))
+	t.fail("condition `%s` is outside the supported subset (comparisons of fields with constants, ||, &&, !, math.IsNaN, math.IsInf, utf8.ValidString)", exprString(e))
 	return "false"
 }
 
